@@ -151,11 +151,20 @@ package masswallet
 // ---- C02: automatic construction.  Conservation lemma at the point where one selection pass is settled:
 // what the selected coins hold = requested outputs + the fee the function will report + the change output
 // (sumCredits = ghost sum of the amounts of a list of credits, defined by findEligibleUtxos' contract).
+// coin selection: what it returns about the selected coins is assumed (selection itself, optOutputs, is outside the
+// contracts); proved here (C02 "change ... to the address of its first input"): the default change address is one of
+// the sender addresses whose script hash is that of the FIRST SELECTED coin
 //@ func (*WalletManager).findEligibleUtxos
-//@   trusted
+//@   props C02
+//@   nopanic off
+//@   only nothing
+// its callees read the database, the keystore index and the node's pool; that nothing of the caller's is written stays
+// an assumption, as it was while the whole function was a trusted boundary
+//@   assumeframe
 //@   requires w != nil && validAmt(amount)
-//@   ensures result4 == nil ==> validAmt(result2) && (forall qi_ int :: 0 <= qi_ && qi_ < len(result0) ==> result0[qi_] != nil)
-//@   ensures result4 == nil ==> amt(result2) == ghost("sumCredits", result0)
+//@   assume result4 == nil ==> validAmt(result2) && (forall qi_ int :: 0 <= qi_ && qi_ < len(result0) ==> result0[qi_] != nil)
+//@   assume result4 == nil ==> amt(result2) == ghost("sumCredits", result0)
+//@   at "firstAddr = addr" assert[C02] strOf(ma.VerifScript()) == strOf(selections[0].ScriptHash)
 
 //@ define changeVal(o) = (b2i(o != nil) * mathint(cur(o.Value)))
 //@ func (*WalletManager).autoConstructTxInAndChangeTxOut
